@@ -48,7 +48,7 @@ def run(ctx):
         if res["violated"] != "LinksValid":
             log("note: the as-is merge model violates %s" % res["violated"])
         p = ctx.vh(["mergedocs", "gen", str(600 if quick else 12000)])
-        for line in p.stdout.decode().splitlines():
+        for line in p.stdout.decode().split("\n"):
             if line.strip():
                 fh.write(line + "\n")
                 n[0] += 1
